@@ -6,7 +6,7 @@ that the hand-written definitions use exactly those (bridge theorems, re-exporte
 
 TC11v spatial.py : get_volume_positions -- mean spacing, the quantity compared with the hint, the handedness refusal, the
                    returned spacing, the single-position spacing (no-gaps route); the multiples, their tolerance, the
-                   zero test of the estimated spacing (gaps route); plus shape checks of the numpy calls around them (which
+                   zero test and the refinement loop of the estimated spacing (gaps route); plus shape checks of the numpy calls around them (which
                    array is compared with which, which reduction estimates the spacing, which index becomes the position).
 TC11a image.py   : _Image._get_stacked_volume_geometry and get_volume_from_series -- number of slices, origin frame,
                    which dataset gives the position of the volume, which dataset becomes slice i, single-dataset spacing,
@@ -137,7 +137,7 @@ def build_TC11v(tree):
     texts = [ast.unparse(s) for s in est_if.orelse[:2]]
     if texts != ['spacings = np.diff(origin_distances_sorted)', 'spacing = spacings.min()']:
         raise Unsupported(f'gaps: spacing estimate is {texts}')
-    zero_if = est_if.orelse[2] if len(est_if.orelse) == 3 else None
+    zero_if = est_if.orelse[2] if len(est_if.orelse) == 4 else None
     if not (isinstance(zero_if, ast.If) and [ast.unparse(s) for s in zero_if.body] == ['return (None, None)'] and not zero_if.orelse):
         raise Unsupported('gaps: zero test of the estimated spacing not found')
     kw = _call_shape(zero_if.test, 'np.isclose', ['spacing', '0.0'], {'atol': None}, 'gaps: zero test')
@@ -145,6 +145,27 @@ def build_TC11v(tree):
     out.append('/-- get_volume_positions, gaps: the estimated spacing (smallest consecutive difference) counts as zero when '
                f'np.isclose(spacing, 0.0, atol=this) -/\ndef gapZeroAtol : Rat := {tol_t}')
     spans += [est_if, tol_node]
+    # refinement of the estimate over growing baselines
+    loop = est_if.orelse[3]
+    if not (isinstance(loop, ast.For) and not loop.orelse and ast.unparse(loop.target) == 'distance'
+            and ast.unparse(loop.iter) == 'origin_distances_sorted[1:] - origin_distances_sorted[0]' and len(loop.body) == 2):
+        raise Unsupported(f'gaps: refinement loop is {ast.unparse(loop)}')
+    cnt, upd = loop.body
+    if not (isinstance(cnt, ast.Assign) and ast.unparse(cnt.targets[0]) == 'n_spacings' and isinstance(cnt.value, ast.Call)
+            and ast.unparse(cnt.value.func) == 'round' and len(cnt.value.args) == 1 and not cnt.value.keywords
+            and isinstance(cnt.value.args[0], ast.Call) and ast.unparse(cnt.value.args[0].func) == 'float'
+            and len(cnt.value.args[0].args) == 1):
+        raise Unsupported(f'gaps: refinement count is {ast.unparse(cnt)}')
+    out.append(scalar_def(cnt.value.args[0].args[0], 'gapRefineRatio', [('distance', 'rat'), ('spacing', 'rat')], {},
+                          'get_volume_positions, gaps, no hint: n_spacings = round(float(this)) (Python round: half to even) for the '
+                          'distance of each plane above the lowest one, in increasing order'))
+    if not (isinstance(upd, ast.If) and not upd.orelse and len(upd.body) == 1 and isinstance(upd.body[0], ast.Assign)
+            and ast.unparse(upd.body[0].targets[0]) == 'spacing'):
+        raise Unsupported(f'gaps: refinement update is {ast.unparse(upd)}')
+    out.append(scalar_def(upd.test, 'gapRefineGuard', [('n_spacings', 'int')], {},
+                          'get_volume_positions, gaps, no hint: the estimate is replaced when this holds'))
+    out.append(scalar_def(upd.body[0].value, 'gapRefined', [('distance', 'rat'), ('n_spacings', 'int')], {},
+                          'get_volume_positions, gaps, no hint: ... by this'))
     a = _one(_assigns(gaps, 'origin_distance_multiples'), 'origin_distance_multiples')
     out.append(scalar_def(a.value, 'gapMultiple', [('d', 'rat'), ('dmin', 'rat'), ('spacing', 'rat')],
                           {'origin_distances': 'd', 'origin_distances.min()': 'dmin'},
